@@ -92,6 +92,7 @@ def check(ctx):
                 if k not in reported:
                     reported.add(k)
                     ctx.fail("C07.O2", f"{func}(): without the FMS, after {fk} raised the callbacks {after[:4]} still run before the exception propagates", site=site, key=f"C07.O2|after|{func}|{fk}")
+    ctx.cov["distinct_nontrivial"] = len({(func, rr.show_key(rr.faulted_key(pi)), tuple(pi.fms())) for func, w, per, pi in res if pi.fault is not None})
     ctx.cov["fault_paths_fms_attached"] = n_att
     ctx.cov["fault_paths_no_fms"] = n_na
     ctx.floor("fault paths with the FMS attached", n_att, 40)
